@@ -153,6 +153,17 @@ theorem good_forceTask (U : Universe) (sem : Nat → V) (s : St V) (i : Nat) (de
       · rw [upd_other _ _ _ _ hll] at hl; exact hg.2 l v hl j hjl hjp
     · exact hg.2 l v hl j hjl hjp
 
+/-- `reset_data` only forgets what one object holds in memory -/
+theorem good_reset (U : Universe) (sem : Nat → V) (s : St V) (i : Nat) (hg : Good U sem s) :
+    Good U sem { s with mem := upd s.mem i none } := by
+  constructor
+  · intro j v hj
+    simp only at hj
+    by_cases hji : j = i
+    · subst hji; simp [upd_same] at hj
+    · rw [upd_other _ _ _ _ hji] at hj; exact hg.1 j v hj
+  · exact hg.2
+
 theorem good_forceAll (U : Universe) (sem : Nat → V) (del : Bool) : ∀ (ts : List Nat) (s : St V),
     Good U sem s → Good U sem (forceAll U del s ts)
   | [], _, hg => hg
